@@ -107,7 +107,13 @@ func TestVerifReplay(t *testing.T) {
 
 	ctx, cancel := context.WithTimeout(context.Background(), 240*time.Second)
 	defer cancel()
-	cmd := exec.CommandContext(ctx, "go", "test", "-tags", "verifreplay", "-vet=off", "-count=1", "-timeout", "60s", "-overlay", ovPath, "-run", "^TestVerifReplay$", "-v", repoMod+"/"+rf.Pkg)
+	// counterexamples may depend on Go's randomised map iteration order, which a native run
+	// cannot be told: the replay is repeated and counts as reproduced if any repetition fails
+	count := "-count=1"
+	if rf.Kind != "witness" {
+		count = "-count=12"
+	}
+	cmd := exec.CommandContext(ctx, "go", "test", "-tags", "verifreplay", "-vet=off", count, "-failfast", "-timeout", "120s", "-overlay", ovPath, "-run", "^TestVerifReplay$", "-v", repoMod+"/"+rf.Pkg)
 	cmd.Dir = repoDir
 	cmd.Env = append(os.Environ(), "GOFLAGS=-mod=mod", "GOPROXY=off", "GOSUMDB=off", "GOTOOLCHAIN=local", "VERIF_REPLAY="+rfPath)
 	out, _ := cmd.CombinedOutput()
